@@ -455,7 +455,9 @@ def check_logpdf_extreme(ctx, kind, n, d, tag):
     import jax.numpy as jnp
 
     rng = ctx.rng
-    scale = float(gen.pick(rng, [1e-10, 1e-6, 1e6, 1e11, 1e-12, 1e12]))
+    scales = [1e-12, 1e12, 1e-10, 1e11, 1e-6, 1e6]
+    scale = scales[ctx.dist.get("logpdf-extreme", 0) % len(scales)]  # deterministic cycle: every scale is visited
+    ctx.count("logpdf-extreme")
     rv0 = gen_rv(ctx, kind, n, d, "well")
     _, Normal = make_impl(kind)
     L = _np(rv0.cholesky_flat) * scale
@@ -600,8 +602,10 @@ def run(ctx):
         ctx.case(tag, nontrivial=(n * d >= 2))
         if it % 6 == 0:
             # many dimensions: dense up to 9*5 = 45 (thorough) / 30 (quick)
-            nn_, dd_ = (int(rng.integers(6, 10)), int(rng.integers(3, 6))) if not ctx.quick else (int(rng.integers(5, 8)), int(rng.integers(3, 5)))
-            check_logpdf_extreme(ctx, kind, nn_, dd_, tag)
+            # the determinant of a 32- (quick) / 45-dimensional dense Gaussian with entries ~1e+-12 leaves the float64 range
+            nn_, dd_ = (9, 5) if not ctx.quick else (8, 4)
+            check_logpdf_extreme(ctx, "dense", nn_, dd_, tag)
+            check_logpdf_extreme(ctx, ["iso", "bd"][(it // 6) % 2], nn_, dd_, tag)
         if it % 20 == 0:
             check_batched(ctx, kind, k, n, d, tag)
             check_identity_and_derivative(ctx, kind, n, d, tag)
